@@ -451,6 +451,14 @@ func (ex *Exec) evalLoc(e Expr, st *State, env *Env) []modItem {
 		}
 		panic(unsupported("modifies: index of unsupported value"))
 	case EIdent:
+		// a captured variable of the closure under contract: its cell
+		if ex.top != nil {
+			for i, fv := range ex.top.fn.FreeVars {
+				if fv.Name() == x.Name {
+					return ex.locOfPtr(ex.top.free[i].(PtrV), st)
+				}
+			}
+		}
 		// a local pointer / slice parameter by name: treat as *p
 		v := ex.eval(x, st, env)
 		if p, ok := v.V.(PtrV); ok {
